@@ -15,41 +15,71 @@ import (
 func genCase(rt *rapid.T) *caseEnv {
 	me := rapid.IntRange(0, nVal-1).Draw(rt, "me")
 	heights := rapid.SampledFrom([]int{1, 1, 2, 2, 2, 3}).Draw(rt, "heights")
-	env := &caseEnv{
-		vs:       &vset{me: me, prop: map[hr]int{}},
-		startH:   1,
-		heights:  heights,
-		delay:    map[timerKey]int{},
-		invalid:  map[V]bool{},
-		concrete: map[types.Height]bool{},
+	env := newEnv(me, 1, heights)
+	others := env.others()
+	genTables(rt, env, 1, types.Height(heights+1))
+	var perHeight [][]input
+	var round0Len []int // number of leading inputs of the height that belong to round 0
+	for hh := 1; hh <= heights; hh++ {
+		hin, r0 := genHeight(rt, env, types.Height(hh), others)
+		perHeight = append(perHeight, hin)
+		round0Len = append(round0Len, r0)
 	}
+	interleaveEarly(rt, perHeight, round0Len, nil)
+	for _, l := range perHeight {
+		env.inputs = append(env.inputs, l...)
+	}
+	return env
+}
+
+func newEnv(me int, startH types.Height, heights int) *caseEnv {
+	return &caseEnv{
+		vs:        &vset{me: me, prop: map[hr]int{}},
+		startH:    startH,
+		heights:   heights,
+		tableFrom: startH,
+		delay:     map[timerKey]int{},
+		invalid:   map[V]bool{},
+		concrete:  map[types.Height]bool{},
+	}
+}
+
+func (e *caseEnv) others() []int {
 	var others []int
 	for i := 0; i < nVal; i++ {
-		if i != me {
+		if i != e.vs.me {
 			others = append(others, i)
 		}
 	}
+	return others
+}
+
+// lastH is the last height the script covers; tables are drawn for tableFrom..lastH+1.
+func (e *caseEnv) lastH() types.Height { return e.startH + types.Height(e.heights) - 1 }
+
+// genTables draws the proposer of rounds 0-4 and the timer table for the heights from..to.
+func genTables(rt *rapid.T, env *caseEnv, from, to types.Height) {
+	me, others := env.vs.me, env.others()
 	roles := []int{me, me, others[0], others[1], others[2]}
-	for h := 1; h <= heights+1; h++ {
+	for h := from; h <= to; h++ {
 		for r := 0; r <= 4; r++ {
-			env.vs.prop[hr{types.Height(h), types.Round(r)}] = rapid.SampledFrom(roles).Draw(rt, "proposer")
+			env.vs.prop[hr{h, types.Round(r)}] = rapid.SampledFrom(roles).Draw(rt, "proposer")
 			for s := 0; s < 3; s++ {
-				env.delay[timerKey{types.Height(h), types.Step(s), types.Round(r)}] =
+				env.delay[timerKey{h, types.Step(s), types.Round(r)}] =
 					rapid.SampledFrom([]int{0, 0, 0, 0, 0, 1, 1, 2, 3, -1, -1}).Draw(rt, "timer")
 			}
 		}
 	}
+}
 
+// genHeight draws the messages the three other validators send for height h (all its rounds).
+func genHeight(rt *rapid.T, env *caseEnv, h types.Height, others []int) (hin []input, r0 int) {
+	me := env.vs.me
 	pct := func(p int, label string) bool { return rapid.IntRange(0, 99).Draw(rt, label) < p }
-	var perHeight [][]input
-	var round0Len []int // number of leading inputs of the height that belong to round 0
-	for hh := 1; hh <= heights; hh++ {
-		h := types.Height(hh)
+	{
 		nFail := rapid.SampledFrom([]int{0, 0, 0, 1, 1, 2}).Draw(rt, "failing-rounds")
-		var hin []input
 		polkaRound := types.Round(-1)
 		var polkaRef vref
-		r0 := 0
 		for rr := 0; rr <= nFail; rr++ {
 			r := types.Round(rr)
 			success := rr == nFail
@@ -187,21 +217,39 @@ func genCase(rt *rapid.T) *caseEnv {
 				// still inside round 0
 			}
 		}
-		perHeight = append(perHeight, hin)
-		round0Len = append(round0Len, r0)
 	}
-	// messages of the next height arrive while the node is still in the previous one
+	return hin, r0
+}
+
+// interleaveEarly: messages of the next height arrive while the node is still in the previous one.
+// notEarly (may be nil): the early part of a height ends before the first input it holds for.
+func interleaveEarly(rt *rapid.T, perHeight [][]input, round0Len []int, notEarly func(input) bool) {
 	for i := 1; i < len(perHeight); i++ {
 		prev, cur := perHeight[i-1], perHeight[i]
 		if len(cur) == 0 {
 			continue
 		}
 		m := 0
-		switch x := rapid.IntRange(0, 99).Draw(rt, "early"); {
-		case x < 12:
-			m = min(len(cur), round0Len[i]) // the whole first round is early
-		case x < 50:
-			m = min(len(cur), rapid.IntRange(1, 5).Draw(rt, "early-n"))
+		if notEarly == nil {
+			switch x := rapid.IntRange(0, 99).Draw(rt, "early"); {
+			case x < 12:
+				m = min(len(cur), round0Len[i]) // the whole first round is early
+			case x < 50:
+				m = min(len(cur), rapid.IntRange(1, 5).Draw(rt, "early-n"))
+			}
+		} else {
+			// long runs: same shapes, 3 heights in 4 have early messages (fair draws, see unif)
+			switch x := unif(rt, 100, "early"); {
+			case x < 15:
+				m = min(len(cur), round0Len[i])
+			case x < 75:
+				m = min(len(cur), 1+unif(rt, 5, "early-n"))
+			}
+			for j := 0; j < m; j++ {
+				if notEarly(cur[j]) {
+					m = j
+				}
+			}
 		}
 		if m == 0 {
 			continue
@@ -215,8 +263,114 @@ func genCase(rt *rapid.T) *caseEnv {
 		}
 		perHeight[i-1] = prev
 	}
+}
+
+// ---------------------------------------------------------------------------------------------
+// long runs: one process life that crosses the log store's life-time thresholds
+
+// walCleanupInterval mirrors walstore.cleanupPruneRecordInterval (unexported): after that many
+// durable prune records in ONE process life the store writes its prune watermark, rotates the log
+// file and removes the log files no live height references. Nothing in the oracles depends on the
+// number - the harness observes the directory to learn when a cleanup really ran - it only places
+// the drawn run lengths around the threshold.
+const walCleanupInterval = 256
+
+// genLongCase draws a LONG run: the validator decides total heights in one process life, total
+// drawn around the cleanup threshold (thorough: also around twice the threshold). The last 1-3
+// heights are drawn by the ordinary generator (genHeight: failing rounds, timers, equivocation ...);
+// the heights before them are "filler": one round, the proposal (from a drawn proposer, the node
+// itself in about 1 of 5 heights), prevotes and precommits of two or three of the other validators for
+// it, no timer ever fires - the cheapest history that decides a height. What is drawn per filler
+// height: the proposer, who stays silent, the sender order, a local swap, and - like in the short
+// cases - whether the first messages (1-5, or the whole round) of the NEXT height overtake the last
+// messages of this one, so that the log file holds flushed entries of a live height next to the
+// entries of the height that is being pruned. The start height is 1 or a drawn larger one.
+func genLongCase(rt *rapid.T, thorough bool) *caseEnv {
+	me := rapid.IntRange(0, nVal-1).Draw(rt, "me")
+	total := 0
+	switch x := unif(rt, 100, "long-total-class"); {
+	case x < 12: // control group: a long life that stops short of the threshold
+		total = walCleanupInterval - 6 + unif(rt, 6, "long-total")
+	case thorough && x >= 70: // two cleanups
+		total = 2*walCleanupInterval + unif(rt, 13, "long-total")
+	default:
+		total = walCleanupInterval + unif(rt, 15, "long-total")
+	}
+	tail := 1 + unif(rt, 3, "long-tail-heights")
+	start := types.Height(1)
+	if unif(rt, 10, "long-start-class") >= 6 {
+		start = types.Height(rapid.IntRange(2, 50000).Draw(rt, "long-start"))
+	}
+	env := newEnv(me, start, total)
+	env.long = true
+	env.fillerTo = start + types.Height(total-tail) - 1
+	env.tableFrom = env.fillerTo + 1
+	others := env.others()
+	genTables(rt, env, env.tableFrom, env.lastH()+1)
+	var perHeight [][]input
+	var round0Len []int
+	for h := start; h <= env.fillerTo; h++ {
+		hin := genFillerHeight(rt, env, h, others)
+		perHeight = append(perHeight, hin)
+		round0Len = append(round0Len, len(hin))
+	}
+	for h := env.tableFrom; h <= env.lastH(); h++ {
+		hin, r0 := genHeight(rt, env, h, others)
+		perHeight = append(perHeight, hin)
+		round0Len = append(round0Len, r0)
+	}
+	// A vote for "what the node proposed in (h, 0)" cannot be sent before the node proposed: in a
+	// filler height (no timer ever fires) a vote for a value nobody knows would stall the node for
+	// good; the drawn tail heights keep the behaviour of the short cases.
+	interleaveEarly(rt, perHeight, round0Len, func(in input) bool {
+		return in.h <= env.fillerTo && in.ref.kind == refProposalOf
+	})
 	for _, l := range perHeight {
 		env.inputs = append(env.inputs, l...)
 	}
 	return env
+}
+
+func genFillerHeight(rt *rapid.T, env *caseEnv, h types.Height, others []int) []input {
+	me := env.vs.me
+	p := rapid.SampledFrom([]int{others[0], others[1], others[2], me}).Draw(rt, "filler-proposer")
+	env.vs.prop[hr{h, 0}] = p
+	var hin []input
+	rv := vref{kind: refProposalOf, at: hr{h, 0}}
+	if p != me {
+		rv = vref{kind: refConcrete, val: mkVal(mkTag(tagOther, 0, uint64(h), 0))}
+		env.concrete[h] = true
+		hin = append(hin, input{kind: kProposal, from: p, h: h, r: 0, vr: -1, ref: rv})
+	}
+	// the node's own vote + two others = quorum; index 3 = nobody stays silent (the third vote of a
+	// kind then arrives late, for the precommits usually after the height was decided)
+	silent := []int{0, 1, 2, 0, 1, 2, 3}
+	rot := rapid.IntRange(0, 2).Draw(rt, "filler-order")
+	for _, kind := range []int{kPrevote, kPrecommit} {
+		skip := rapid.SampledFrom(silent).Draw(rt, "filler-silent")
+		for i := 0; i < 3; i++ {
+			if j := (i + rot) % 3; j != skip {
+				hin = append(hin, input{kind: kind, from: others[j], h: h, r: 0, ref: rv})
+			}
+		}
+	}
+	if len(hin) > 1 && rapid.IntRange(0, 99).Draw(rt, "filler-swap") < 15 {
+		i := rapid.IntRange(0, len(hin)-2).Draw(rt, "filler-swap-i")
+		hin[i], hin[i+1] = hin[i+1], hin[i]
+	}
+	return hin
+}
+
+// unif draws a number in [0, n) from ten fair coin flips. rapid's integer generators favour small
+// values by design (IntRange(0, 999) is below 30 in about half of the draws), which is wanted for
+// sizes but not for "3 % of the cases".
+func unif(rt *rapid.T, n int, label string) int {
+	x := 0
+	for i := 0; i < 10; i++ {
+		x <<= 1
+		if rapid.Bool().Draw(rt, label) {
+			x |= 1
+		}
+	}
+	return x * n >> 10
 }
